@@ -1097,8 +1097,9 @@ def convert_avg_pool_to_conv2d(op: Operation, arch, nng) -> Operation:
 
     op.rounding_mode = RoundingMode.AwayZero
     # Every output channel sums the kernel window of its own input channel only
-    ifm_depth = inputs.shape[-1]
-    shape = [h, w, ifm_depth, op.ofm.shape[-1]]
+    # (the depths are taken from the operator's own shapes, the IFM/OFM tensors may carry the shape of a bypassed reshape)
+    ifm_depth = op.ifm_shapes[0].depth
+    shape = [h, w, ifm_depth, op.ofm_shapes[0].depth]
     weights = np.zeros(shape, dtype=np.int64)
     for c in range(min(ifm_depth, shape[-1])):
         weights[:, :, c, c] = 1
@@ -1115,8 +1116,7 @@ def convert_avg_pool_to_conv2d(op: Operation, arch, nng) -> Operation:
     )
     op.weights.values = np.reshape(op.inputs[1].values, shape)
 
-    # Set IFM/OFM shapes after changing op type
-    op.set_ifm_ofm_shapes()
+    # The IFM/OFM shapes of the average pool remain valid for the convolution
     return op
 
 
